@@ -31,6 +31,9 @@ type GenOpts struct {
 	OrderedBetween bool
 	// ListFields: select fields may be list-valued (split/list/int_list/float_list)
 	ListFields bool
+	// UserFunc: text expressions may call vmark(text), the scalar function userfunc.go registers
+	// without a vector form
+	UserFunc bool
 }
 
 func defaultOpts() GenOpts {
@@ -161,6 +164,10 @@ func (g *Gen) Str(d int) string {
 		}
 		return g.Str(0)
 	default:
+		if g.o.UserFunc {
+			g.note("vmark")
+			return "vmark(" + g.Str(d-1) + ")"
+		}
 		return g.Str(0)
 	}
 }
